@@ -228,3 +228,49 @@ Example real_fx_releases_on_panic :
   let s := wexec WFx 1 (bp [true; false]) [0;0;0;0; 1;1;1; 0;0;0;0; 2;2;2; 0;0;0] in
   (map wst (wtasks s), wc s, wd s) = ([WDn; WDn], 0, DDone).
 Proof. vm_compute. reflexivity. Qed.
+
+(* (g) MaxConnsHandler that ALSO gives its permit back when the request context is cancelled
+   (context.AfterFunc(r.Context(), release), a sync.Once against the deferred release; seeded
+   change C05-5): the cancellation of thread k's context frees k's permit while k's handler is
+   still inside; the deferred release then finds the Once spent. *)
+Definition release_on_cancel_lstep (s : lstate) (x : nat) : option lstate :=
+  match nth_error (lthreads s) x with
+  | Some th =>
+    match lpcof th, lcur th with
+    | LIdle, Some (LCancel k) =>
+      let s1 := lkeep s x (ldone th (lheld th) 1) in
+      match nth_error (lthreads s1) k with
+      | Some tk =>
+        match lpcof tk, lheld tk with
+        | LInBody, S h =>     (* AfterFunc: release(); the handler goes on *)
+          Some (mkLS (lcap s1) (pred (lc s1)) (lsig s1) (lacq s1) (S (lrel s1)) (lrogue s1)
+                     (upd_nth (lthreads s1) k (lgo tk LInBody h)))
+        | _, _ => Some s1
+        end
+      | None => Some s1
+      end
+    | LInBody, Some o =>
+      match lheld th with
+      | 0 =>                  (* the Once is spent: the deferred release does nothing *)
+        Some (lkeep s x (ldone th 0 (match o with LReq true => 3%Z | _ => 1%Z end)))
+      | _ => lstep s x
+      end
+    | _, _ => lstep s x
+    end
+  | None => lstep s x
+  end.
+
+(* capacity n, n holders inside, their contexts cancelled, they stay parked inside; one more
+   request is let in: n + 1 handlers inside the guarded region *)
+Theorem release_on_cancel_cap_exceeded_refuted :
+  exists n scripts sched,
+    0 < n /\ n < linbody (run release_on_cancel_lstep (linit n scripts) sched).
+Proof.
+  exists 2, [[LReq false]; [LReq false]; [LCancel 0; LCancel 1; LReq false]], [0; 1; 2; 2; 2].
+  vm_compute. split; repeat constructor.
+Qed.
+
+Example real_maxconns_keeps_permit_after_cancel :
+  let s := lexec 2 [[LReq false]; [LReq false]; [LCancel 0; LCancel 1; LReq false]] [0; 1; 2; 2; 2] in
+  (linbody s, lc s, map lres (lthreads s)) = (2, 2, [[]; []; [1; 1; 0]]%Z).
+Proof. vm_compute. reflexivity. Qed.
